@@ -103,6 +103,8 @@ func (lex *Lexer) isNotCommentEnd() bool {
 func (lex *Lexer) Lex() *token.Token {
 	eof := lex.pe
 	var tok token.ID
+	mStart, mEnd := 0, 0
+	_, _ = mStart, mEnd
 
 	tkn := lex.tokenPool.Get()
 
@@ -190,7 +192,9 @@ func (lex *Lexer) Lex() *token.Token {
 		goto st3
 	tr3:
 		lex.te = (lex.p) + 1
+		mEnd = lex.p
 		{
+			_ = lex.data[mStart:mEnd]
 			tok = token.T_STRING
 			{
 				(lex.p)++
@@ -258,6 +262,9 @@ func (lex *Lexer) Lex() *token.Token {
 			lex.ungetCnt(1)
 		}
 		goto st3
+	tr8:
+		mStart = lex.p
+		goto st5
 	st3:
 		lex.ts = 0
 
@@ -281,7 +288,7 @@ func (lex *Lexer) Lex() *token.Token {
 		case 65:
 			goto st5
 		case 97:
-			goto st5
+			goto tr8
 		}
 		goto tr7
 	st4:
